@@ -8,7 +8,7 @@ NOT_YET = {}
 def chk(pid, text, note, technique, design, exhaustive=False):
     CHECKS[pid] = dict(text=text, note=note, technique=technique, design=design)
 
-exec(open(os.path.join(os.path.dirname(__file__), "manifest_table.py")).read())
+exec(open(os.path.join(os.path.dirname(os.path.abspath(__file__)), "manifest_table.py")).read())
 
 props = [json.loads(l)["id"] for l in open("/verif/properties.jsonl")]
 checks = []
